@@ -89,7 +89,7 @@ end
 def visitVarDefPar (er : ER) (c : Cfg) (v : VarDef) (st : St) : St :=
   visitNodePar er c (.varDef v) (fun st =>
     let st := match v.default with | some d => visitValuePar er c d st | none => st
-    visitNodePar er c (.typeNode v.type) id st) st
+    visitDirectivesPar er c v.dirs (visitNodePar er c (.typeNode v.type) id st)) st
 
 def visitDefPar (er : ER) (c : Cfg) (d : Def) (st : St) : St :=
   match d with
